@@ -295,7 +295,7 @@ func (u *Unit) oblige(f *Frame, st *State, kind, text, goal string, pos token.Po
 	u.em.obls = append(u.em.obls, ob)
 	// afterwards it may be assumed (execution continues only if it held)
 	switch kind {
-	case "guarded-read", "guarded-write", "unlock-unheld", "double-lock", "unguarded":
+	case "guarded-read", "guarded-write", "unlock-unheld", "double-lock", "unguarded", "errwrap":
 		return
 	}
 	u.em.assert(implies(st.pc, goal))
